@@ -808,6 +808,35 @@ func (b *bb) scenarioFaulty() {
 		}
 		ctx, cancel := context.WithCancel(context.Background())
 		defer cancel()
+		if b.cycle("faulty-simple1", 2) == 0 {
+			// v1 Simple: the error of the inner discipline ends main, its handlers and itself
+			sd, err := p1.NewSimple(p1.SimpleOpts[int]{Ctx: ctx, Divider: dv, Handle: func(context.Context, int) {}, HandlersQuantity: c.H, Inputs: inputs})
+			if err != nil {
+				b.note("faulty", "simple1 "+desc, before)
+				return
+			}
+			startProducers()
+			select {
+			case e, ok := <-sd.Err():
+				if !ok || e == nil {
+					b.fail("C15 faulty v1 simple: the divider broke its contract (%s) but Err() yielded %v (open=%v) (%s)", kind, e, ok, desc)
+				}
+			case <-time.After(10 * time.Second):
+				b.fail("C15 faulty v1 simple: the divider broke its contract (%s) but no error was reported within 10s (%s)", kind, desc)
+			}
+			ret := make(chan struct{})
+			go func() { sd.Stop(); close(ret) }()
+			select {
+			case <-ret:
+			case <-time.After(5 * time.Second):
+				b.fail("C16 faulty v1 simple: Stop() did not return within 5s after a divider error (%s)", desc)
+			}
+			close(stop)
+			produced.Wait()
+			b.leakProbe("divider error of v1 simple")
+			b.note("faulty", "simple1 "+desc, before)
+			return
+		}
 		output := make(chan p1.Prioritized[int], 1)
 		feedback := make(chan uint, 1)
 		dsc, err := p1.New(p1.Opts[int]{Ctx: ctx, Divider: dv, Feedback: feedback, HandlersQuantity: c.H, Inputs: inputs, Output: output})
